@@ -309,6 +309,12 @@ type COp struct {
 	L int
 }
 
+// HStoredRaw makes the specification encoder spell an H field the way the
+// library does (decoded bytes instead of hex digits): the known finding
+// C05/aux-type-H. With it set, everything else about a record with an H field
+// (framing, block size, the other fields) is still compared.
+var HStoredRaw bool
+
 // AAux is one auxiliary field. Ty is the BAM type letter.
 type AAux struct {
 	Tag string
@@ -532,7 +538,13 @@ func SpecAux(b []byte, a AAux) []byte {
 		b = append(b, a.ZText()...)
 		b = append(b, 0)
 	case 'H':
-		b = append(b, a.S...) // hex digits, NUL terminated
+		if HStoredRaw {
+			// known finding C05 aux-type-H: the library stores the decoded bytes
+			raw, _ := hex.DecodeString(a.S)
+			b = append(b, raw...)
+		} else {
+			b = append(b, a.S...) // hex digits, NUL terminated
+		}
 		b = append(b, 0)
 	case 'B':
 		b = append(b, a.Sub)
